@@ -42,11 +42,16 @@ def scramble(rng, cell):
             c[rng.choice(slots)].append(s)
         return c
     if c['k'] == 'rest':
-        sigs = c['pre'] + c['post']
+        # the vertical position of a rest (letters, e.g. GG) is one signifier: it is neither repeated (GGGG is another position) nor moved in
+        # front of the duration; it keeps a place somewhere after the r
+        pos = [x for x in c['pre'] + c['post'] if x.isalpha() and x != 'X']
+        sigs = [x for x in c['pre'] + c['post'] if x not in pos]
         sigs = sigs + [rng.choice(sigs) for _ in range(rng.randint(0, 1))] if sigs else []
         rng.shuffle(sigs)
         k = rng.randint(0, len(sigs))
         c['pre'], c['post'] = sigs[:k], sigs[k:]
+        for x in pos[:1]:
+            c['post'].insert(rng.randint(0, len(c['post'])), x)
         return c
     return c
 
@@ -155,6 +160,40 @@ def explore(ctx, depth):
         # model tie on the chain: the model imports the exported text and must export the same again
         c2 = docrun.Case({'text': e1['ok'], 'headers': case.adoc['headers'], 'rows': []})
         chain_cases.append((case, c2, e1['ok']))
+    # the normal form of documents whose free text holds the two separator characters: whatever the first export makes of such text (finding
+    # F10 of C03/C04: the plain encodings drop the characters), the exported text is a normal form, so it must be a fixed point of the plain
+    # chain AND of the extended chain (dumps(eKern) -> get_kern_from_ekern -> loads -> dumps(eKern))
+    sep_docs = []
+    for case in cases[:10 if depth == 'quick' else 100]:
+        if case.doc is None or not any(h != '**kern' for h in case.adoc['headers']):
+            continue
+        v = copy.deepcopy(case.adoc)
+        k = 0
+        for row in v['rows']:
+            if row['kind'] == 'cells' and row['rk'] == 'data':
+                for c in row['cells']:
+                    if c['k'] == 'other' and c.get('kind') in ('lyrics', 'dynamics', 'harmony', 'fingering', 'otherText') and k < 4:
+                        c['text'] = ['col\u00b7le-', 'a@b', 'x\u00b7@y', 'l\u00b7l'][k]
+                        k += 1
+        if k:
+            sep_docs.append(v)
+    if sep_docs:
+        gen.render_documents(ctx.driver, sep_docs)
+        for v in sep_docs:
+            def normal_form_chains():
+                d0, _ = kp.loads(v['text'])
+                nf = kp.dumps(d0)
+                d1, errs1 = kp.loads(nf)
+                plain = kp.dumps(d1)
+                x = kp.dumps(d1, encoding=Encoding.eKern)
+                d2, errs2 = kp.loads(get_kern_from_ekern(x))
+                return {'errors': [[e.line, e.encoding] for e in errs1 + errs2], 'plain_fixed': plain == nf, 'extended_fixed': kp.dumps(d2, encoding=Encoding.eKern) == x}
+            got = call(normal_form_chains)
+            ctx.seen({'text': v['text'], 'clause': 'normal form of text with separator characters'}, True)
+            if got != {'ok': {'errors': [], 'plain_fixed': True, 'extended_fixed': True}}:
+                ctx.fail({'text': v['text'], 'clause': 'normal form of text with separator characters'},
+                         'the exported text of a document whose free text holds @ or \u00b7 is not a fixed point of the plain and the extended chain',
+                         impl=got, expected={'ok': {'errors': [], 'plain_fixed': True, 'extended_fixed': True}})
     # canonicity on documents
     variants = []
     for case in cases:
